@@ -1150,6 +1150,28 @@ class World:
                 return "sigfree_opcodes_scriptsig" + ("" if place in (0, 2) else "_behind_redeem")
             mi["script_sig"] = bytes(ops)
             return "sigfree_opcodes_scriptsig"
+        if k == "degenerate_sig":
+            # every signature slot holds a degenerate ECDSA / Schnorr value: (r, s) = (0, 0), (0, 1), (1, 0), (N, N), all-zero 64 bytes
+            v = a % 5
+            if not sig_slots:
+                return None
+            if kind in ("p2tr_key", "p2tr_script"):
+                val = [bytes(64), bytes(32) + b"\x00" * 31 + b"\x01", b"\x00" * 31 + b"\x01" + bytes(32), b"\xff" * 64, bytes(63) + b"\x01"][v]
+            else:
+                N_ = 0xFFFFFFFFFFFFFFFFFFFFFFFFFFFFFFFEBAAEDCE6AF48A03BBFD25E8CD0364141
+                r_, s_ = [(0, 0), (0, 1), (1, 0), (N_, N_), (N_, 0)][v]
+
+                def one(x_):
+                    bb = x_.to_bytes(33, "big").lstrip(b"\x00") or b"\x00"
+                    if bb[0] & 0x80:
+                        bb = b"\x00" + bb
+                    return b"\x02" + bytes([len(bb)]) + bb
+
+                body = one(r_) + one(s_)
+                val = b"\x30" + bytes([len(body)]) + body + b"\x01"
+            for slot in sig_slots:
+                put(slot, val)
+            return "degenerate_signature_values"
         if k == "program_splice":
             # signature-free spends that plant a witness-program pattern (<0> <20/32 bytes> or <1> <32 bytes>) where it does not belong:
             # in the scriptSig of a non-witness output, or among the witness items of a witness output, together with an attacker-chosen
@@ -1278,7 +1300,9 @@ def gen_spk(ch):
         # output scripts with legal but non-minimal pushes (OP_PUSHDATA1/2 for short data), as found on chain: the digests commit
         # to these bytes as they are
         d = h[: ch.randrange(1, 30)]
-        return ch.choice([b"\x6a\x4c" + bytes([len(d)]) + d, b"\x6a\x4d" + len(d).to_bytes(2, "little") + d, b"\x4c\x14" + h[:20] + b"\x87", b"\x4e" + len(d).to_bytes(4, "little") + d + b"\x75\x51"]).hex()
+        big = ch.bytes(ch.choice([75, 76, 255, 255, 256]))
+        return ch.choice([b"\x6a\x4c" + bytes([len(d)]) + d, b"\x6a\x4d" + len(d).to_bytes(2, "little") + d, b"\x4c\x14" + h[:20] + b"\x87", b"\x4e" + len(d).to_bytes(4, "little") + d + b"\x75\x51",
+                          b"\x4d" + len(big).to_bytes(2, "little") + big + b"\x75\x51", b"\x4e" + len(big).to_bytes(4, "little") + big + b"\x75\x51"]).hex()
     return ch.choice([tm.spk_p2pkh(h[:20]), tm.spk_p2sh(h[:20]), tm.spk_p2wpkh(h[:20]), tm.spk_p2wsh(h), tm.spk_p2tr(secp.xonly(pub(ch.randrange(8)))), b"\x6a" + tm.push(h[: ch.randrange(0, 30)])]).hex()
 
 
@@ -1404,7 +1428,7 @@ def generate(ch, tier, prop):
                 vbudget -= 1
                 steps.append({"op": "verify", "i": i, "reps": 1})
         # transmissions with in-flight tampering: placed right after sign operations so that the spend is a valid one
-        TAMPER = ["program_splice", "sigfree_opcodes", "flip", "flip", "retag", "retag", "drop_sig", "swap_sigs", "dup_sig", "foreign_sig", "cb_parity", "cb_flip", "annex_only", "empty_witness", "truncate_witness", "sigfree_scriptsig", "sigfree_scriptsig", "wrong_script"]
+        TAMPER = ["degenerate_sig", "program_splice", "sigfree_opcodes", "flip", "flip", "retag", "retag", "drop_sig", "swap_sigs", "dup_sig", "foreign_sig", "cb_parity", "cb_flip", "annex_only", "empty_witness", "truncate_witness", "sigfree_scriptsig", "sigfree_scriptsig", "wrong_script"]
         out = []
         tbudget = ch.randrange(1, 5)
         for st in steps:
@@ -1426,14 +1450,14 @@ SIGFREE_CAT = [[0x51, 0x00, 0x63], [0x51, 0x51, 0x64], [0x00, 0x63], [0x51, 0x64
 
 
 TAMPER_BY_KIND = {
-    "p2pkh": ["program_splice", "sigfree_opcodes", "flip_ss", "retag", "foreign_sig", "sigfree_scriptsig"],
-    "p2sh_ms": ["program_splice", "sigfree_opcodes", "flip_ss", "retag", "drop_sig", "swap_sigs", "dup_sig", "foreign_sig", "sigfree_scriptsig", "wrong_script"],
-    "p2wpkh": ["program_splice", "sigfree_opcodes", "flip", "retag", "foreign_sig", "empty_witness", "truncate_witness", "sigfree_scriptsig"],
-    "p2sh_p2wpkh": ["program_splice", "sigfree_opcodes", "flip", "flip_ss", "retag", "foreign_sig", "empty_witness", "sigfree_scriptsig"],
-    "p2wsh_ms": ["program_splice", "sigfree_opcodes", "flip", "retag", "drop_sig", "swap_sigs", "dup_sig", "foreign_sig", "empty_witness", "truncate_witness", "sigfree_scriptsig", "wrong_script"],
-    "p2sh_p2wsh_ms": ["program_splice", "sigfree_opcodes", "flip", "flip_ss", "retag", "drop_sig", "swap_sigs", "dup_sig", "foreign_sig", "sigfree_scriptsig", "wrong_script"],
-    "p2tr_key": ["program_splice", "sigfree_opcodes", "flip", "retag", "foreign_sig", "annex_only", "empty_witness", "sigfree_scriptsig"],
-    "p2tr_script": ["program_splice", "sigfree_opcodes", "flip", "retag", "drop_sig", "swap_sigs", "dup_sig", "foreign_sig", "cb_parity", "cb_flip", "annex_only", "truncate_witness", "sigfree_scriptsig", "wrong_script"],
+    "p2pkh": ["degenerate_sig", "program_splice", "sigfree_opcodes", "flip_ss", "retag", "foreign_sig", "sigfree_scriptsig"],
+    "p2sh_ms": ["degenerate_sig", "program_splice", "sigfree_opcodes", "flip_ss", "retag", "drop_sig", "swap_sigs", "dup_sig", "foreign_sig", "sigfree_scriptsig", "wrong_script"],
+    "p2wpkh": ["degenerate_sig", "program_splice", "sigfree_opcodes", "flip", "retag", "foreign_sig", "empty_witness", "truncate_witness", "sigfree_scriptsig"],
+    "p2sh_p2wpkh": ["degenerate_sig", "program_splice", "sigfree_opcodes", "flip", "flip_ss", "retag", "foreign_sig", "empty_witness", "sigfree_scriptsig"],
+    "p2wsh_ms": ["degenerate_sig", "program_splice", "sigfree_opcodes", "flip", "retag", "drop_sig", "swap_sigs", "dup_sig", "foreign_sig", "empty_witness", "truncate_witness", "sigfree_scriptsig", "wrong_script"],
+    "p2sh_p2wsh_ms": ["degenerate_sig", "program_splice", "sigfree_opcodes", "flip", "flip_ss", "retag", "drop_sig", "swap_sigs", "dup_sig", "foreign_sig", "sigfree_scriptsig", "wrong_script"],
+    "p2tr_key": ["degenerate_sig", "program_splice", "sigfree_opcodes", "flip", "retag", "foreign_sig", "annex_only", "empty_witness", "sigfree_scriptsig"],
+    "p2tr_script": ["degenerate_sig", "program_splice", "sigfree_opcodes", "flip", "retag", "drop_sig", "swap_sigs", "dup_sig", "foreign_sig", "cb_parity", "cb_flip", "annex_only", "truncate_witness", "sigfree_scriptsig", "wrong_script"],
 }
 
 
@@ -1503,6 +1527,17 @@ def enumerate_plans(tier, prop, seed):
                     t["mut"] = {"kind": "flip" if tk == "flip_ss" else tk, "a": (r.randrange(10000) if tk != "sigfree_opcodes" else rep * 3 + 1 + (rep % 2)), "b": (r.randrange(256) if tk != "sigfree_opcodes" else rep), "region": "ss" if tk == "flip_ss" else "w"}
                 yield {"version": 2, "locktime": 0, "inputs": [spec], "outputs": [{"amount": 90000, "spk": tm.spk_p2wpkh(bytes(20)).hex()}, {"amount": 5000, "spk": tm.spk_p2pkh(bytes(20)).hex()}],
                        "steps": [{"op": "sign", "i": 0, "ht": r.choice([0, 1, 3, 0x81]), "pick": r.randrange(1000), "partial_first": kind == "p2tr_script" and rep % 2 == 0, "extra_signer": kind == "p2tr_script" and tk == "none"}, t], "enum": "catalogue"}
+    # degenerate signature values in every signature slot: every variant x every kind
+    for kind in KINDS:
+        for v in range(5):
+            n = 1 if kind in ("p2pkh", "p2wpkh", "p2sh_p2wpkh", "p2tr_key") else 2
+            spec = {"kind": kind, "txid": "%064x" % r.getrandbits(256), "vout": 0, "sequence": 0xFFFFFFFE, "amount": 100000, "keys": r.sample(range(8), n)}
+            if n > 1 or kind == "p2tr_script":
+                spec["m"] = n
+                if kind == "p2tr_script":
+                    spec["internal"] = r.randrange(8)
+            yield {"version": 2, "locktime": 0, "inputs": [spec], "outputs": [{"amount": 90000, "spk": tm.spk_p2wpkh(bytes(20)).hex()}],
+                   "steps": [{"op": "sign", "i": 0, "ht": 1 if kind not in ("p2tr_key", "p2tr_script") else 0, "pick": v}, {"op": "transmit", "i": 0, "mut": {"kind": "degenerate_sig", "a": v, "b": 0, "region": "w"}}], "enum": "degenerate-sig"}
     # witness-program splices: every variant x every kind it applies to, several key sets (the effect depends on key bytes)
     for kind in KINDS:
         for v in range(6):
